@@ -45,6 +45,7 @@ func init() {
 			{Name: "promoted field read with FieldByIndex (original defect: nil embedded pointer panics)", File: "eval.go", Old: "\t\t\tfield, err := fieldByIndex(v, id)\n\t\t\tif err != nil {\n\t\t\t\treturn reflect.Value{}, err\n\t\t\t}\n", New: "\t\t\tfield := v.FieldByIndex(id)\n", Rule: "C06.nil"},
 			{Name: "field-path walker dereferences without the nil test", File: "eval.go", Old: "\t\t\tif v.IsNil() {\n\t\t\t\treturn reflect.Value{}, fmt.Errorf(\"nil pointer to embedded struct %s\", v.Type().Elem())\n\t\t\t}\n\t\t\tv = v.Elem()", New: "\t\t\tv = v.Elem()", Rule: "C06.nil"},
 			{Name: "variables unwrapped at assignment instead of at lookup, loop variables forgotten (agent seed C06/6)", File: "eval.go", Old: "\t\tv, ok := sc.variables[name]\n\t\tif ok {\n\t\t\treturn indirectEface(v), nil\n\t\t}", New: "\t\tv, ok := sc.variables[name]\n\t\tif ok {\n\t\t\treturn v, nil\n\t\t}", Rule: "C06.same"},
+			{Name: "map key converted only when the kinds differ (agent seed C17/6)", File: "eval.go", Old: "\t\tindexVal = indexVal.Convert(v.Type().Key()) // noop in most cases, but not expensive", New: "\t\tif indexVal.Kind() != v.Type().Key().Kind() {\n\t\t\tindexVal = indexVal.Convert(v.Type().Key())\n\t\t}", Rule: "C06.conv"},
 			{Name: "absent key in the middle of a chain yields nil instead of an error", File: "eval.go", Old: "\t\t\tif resolved.Kind() == reflect.Map && i == len(node.Field)-1 {", New: "\t\t\tif resolved.Kind() == reflect.Map {", Rule: "C06.nil"},
 		},
 	})
@@ -59,9 +60,14 @@ func runC06(c *an.Ctx) {
 	c06cache(c)
 	c06fieldPath(c)
 	c06unwrap(c)
+	c06mapKey(c)
 }
 
-func c06bounds(c *an.Ctx) {
+func c06bounds(c *an.Ctx) { boundsRule(c, "C06.bounds") }
+
+// boundsRule: every integer handed to reflect Index/Slice is range-checked first (shared with C12.panicval:
+// reflect panics with a string, which Execute re-panics instead of returning an error).
+func boundsRule(c *an.Ctx, rule string) {
 	p := c.P
 	eval := p.Eval()
 	n := 0
@@ -147,15 +153,15 @@ func c06bounds(c *an.Ctx) {
 				}
 			}
 			if len(problems) > 0 {
-				c.Bad("C06.bounds", key, call.Pos(), nil, "%s calls %s with arguments that are not proven in range: %s — reflect panics with a string, which Runtime.recover re-panics out of Execute", f.Name, an.Str(call), strings.Join(dedup(problems), "; "))
+				c.Bad(rule, key, call.Pos(), nil, "%s calls %s with arguments that are not proven in range: %s — reflect panics with a string, which Runtime.recover re-panics out of Execute", f.Name, an.Str(call), strings.Join(dedup(problems), "; "))
 			} else {
-				c.OK("C06.bounds", key, call.Pos(), "arguments are sanitised by indexArg, are internal counters, or lie behind explicit bounds facts")
+				c.OK(rule, key, call.Pos(), "arguments are sanitised by indexArg, are internal counters, or lie behind explicit bounds facts")
 			}
 		}
 	}
-	c.Expect("C06.bounds", "reflect Index/Slice sites reachable from Execute", n, 5)
+	c.Expect(rule, "reflect Index/Slice sites reachable from Execute", n, 5)
 	// the sanitiser itself
-	if f := c.Fn("C06.bounds", "indexArg"); f != nil {
+	if f := c.Fn(rule, "indexArg"); f != nil {
 		x := p.NewExplorer(f, an.Hooks{})
 		x.Run(nil)
 		c.States += x.Visited
@@ -179,7 +185,7 @@ func c06bounds(c *an.Ctx) {
 				ok = false
 			}
 		}
-		c.Check(ok && seen, "C06.bounds", "indexArg/two-sided", f.Pos(), "indexArg returns an index only when 0 <= x < cap", "indexArg can return an index without having established both x >= 0 and x < cap: out-of-range indexes reach reflect.Value.Index")
+		c.Check(ok && seen, rule, "indexArg/two-sided", f.Pos(), "indexArg returns an index only when 0 <= x < cap", "indexArg can return an index without having established both x >= 0 and x < cap: out-of-range indexes reach reflect.Value.Index")
 	}
 }
 
@@ -727,4 +733,57 @@ func c06unwrap(c *an.Ctx) {
 	} else {
 		c.Bad("C06.same", "(*Runtime).resolve/unwraps", f.Pos(), raw, "resolve returns variables without unwrapping interface values, and %d store(s) into a scope keep the value wrapped: indexing, slicing or using such a variable as an index fails although the value behind the interface supports it", len(raw))
 	}
+}
+
+// c06mapKey: reflect.Value.MapIndex panics (with a string) unless the key is assignable to the map's key
+// type.  In resolveIndex the key handed to MapIndex is, on every path, the result of Convert to
+// <map>.Type().Key(): a key of the same kind but another (named) type is converted too.
+func c06mapKey(c *an.Ctx) { mapKeyRule(c, "C06.conv") }
+
+// mapKeyRule is shared with C17.steps: inside isset the reflect panic is swallowed and an existing key
+// of a map with a named key type is reported as not set.
+func mapKeyRule(c *an.Ctx, rule string) {
+	p := c.P
+	f := c.Fn(rule, "resolveIndex")
+	if f == nil {
+		return
+	}
+	info := f.Info()
+	isKeyType := func(e ast.Expr) bool { return strings.HasSuffix(an.Norm(f, e), ".Type().Key()") }
+	n, bad := 0, token.NoPos
+	hooks := an.Hooks{
+		PreAssign: func(x *an.Explorer, lhs, rhs ast.Expr, stmt ast.Node, st *an.State) {
+			id, ok := an.Unparen(lhs).(*ast.Ident)
+			if !ok {
+				return
+			}
+			conv := ""
+			if call, ok := an.Unparen(rhs).(*ast.CallExpr); ok && rhs != nil && an.CalleeName(info, call) == "(reflect.Value).Convert" && len(call.Args) == 1 && isKeyType(call.Args[0]) {
+				conv = "1"
+			}
+			st.Set("keyconv:"+id.Name, conv)
+		},
+		Call: func(x *an.Explorer, call *ast.CallExpr, st *an.State) {
+			if an.CalleeName(info, call) != "(reflect.Value).MapIndex" || len(call.Args) != 1 {
+				return
+			}
+			n++
+			ok := false
+			switch a := an.Unparen(call.Args[0]).(type) {
+			case *ast.Ident:
+				ok = st.Get("keyconv:"+a.Name) != ""
+			case *ast.CallExpr:
+				ok = an.CalleeName(info, a) == "(reflect.Value).Convert" && len(a.Args) == 1 && isKeyType(a.Args[0])
+			}
+			if !ok && !bad.IsValid() {
+				bad = call.Pos()
+			}
+		},
+	}
+	x := p.NewExplorer(f, hooks)
+	x.Run(nil)
+	c.States += x.Visited
+	c.Expect(rule, "MapIndex calls in resolveIndex (state visits)", n, 1)
+	c.Check(!bad.IsValid(), rule, "resolveIndex/map-key-converted", f.Pos(), "the key handed to MapIndex was converted to the map's key type on every path",
+		"resolveIndex can hand MapIndex a key that was not converted to the map's key type: a key of the right kind but another type (a string for map[Role]…) makes reflect panic with a string, which escapes Execute (and makes isset answer false for an existing key)")
 }
